@@ -7,6 +7,8 @@ import AxVerif.Lemmas.Bytes
 namespace AxVerif.Tuple
 open AxVerif
 
+deriving instance DecidableEq for Except
+
 /-! ### alignment -/
 
 def AlignOk (a : Nat) : Prop := a = 1 ∨ a = 2 ∨ a = 4 ∨ a = 8
